@@ -208,11 +208,22 @@ var errVeto = errors.New("removal vetoed by the simulator (protected path)")
 
 func (h *hookState) remove(site, path string) error {
 	clean := filepath.Clean(path)
-	bad := !filepath.IsAbs(clean) || !(clean == h.sandbox || strings.HasPrefix(clean, h.sandbox+string(filepath.Separator))) || clean == h.sandbox
-	for _, p := range h.protect {
-		// p itself or any ancestor of p
-		if clean == p || strings.HasPrefix(p, clean+string(filepath.Separator)) {
+	// what the removal would really hit: symbolic links in the directory part resolved (the last component is
+	// removed as it is, a link is unlinked and not followed)
+	phys := clean
+	if rp, err := filepath.EvalSymlinks(filepath.Dir(clean)); err == nil {
+		phys = filepath.Join(rp, filepath.Base(clean))
+	}
+	bad := !filepath.IsAbs(clean)
+	for _, c := range []string{clean, phys} {
+		if !strings.HasPrefix(c, h.sandbox+string(filepath.Separator)) {
 			bad = true
+		}
+		for _, p := range h.protect {
+			// p itself or any ancestor of p
+			if c == p || strings.HasPrefix(p, c+string(filepath.Separator)) {
+				bad = true
+			}
 		}
 	}
 	if bad {
